@@ -102,8 +102,11 @@ Section M.
     intros r. induction l as [|[a p] l IH]; cbn; intros s s' L H.
     - inversion H; subst. apply SR_refl; exact L.
     - destruct (negb (parse_ok a)); [discriminate|].
-      set (s1 := set_acc s a (mkAccount p SActive (cur_key s) [(r, p)])) in *.
-      assert (H1 : SR r s s1) by (apply SR_set_acc; [exact L | apply step_reset]).
+      set (hist := match mget a (accounts s) with Some x => a_hist x ++ [(r, p)] | None => [(r, p)] end) in *.
+      assert (Eh : hist = a_hist (acc_of s a) ++ [(r, p)])
+        by (unfold hist, acc_of; destruct (mget a (accounts s)); reflexivity).
+      set (s1 := set_acc s a (mkAccount p SActive (cur_key s) hist)) in *.
+      assert (H1 : SR r s s1) by (apply SR_set_acc; [exact L | rewrite Eh; apply step_append]).
       assert (H2 : SR r s1 (unpack_if_me me s1 a))
         by (apply SR_same; [eapply SR_LP; eauto | apply accounts_unpack]).
       eapply SR_trans; [eapply SR_trans; eauto|]. apply IH; [eapply SR_LP; eauto | exact H].
